@@ -22,6 +22,25 @@ CLAIMED = {
             "Trusted: Lean kernel; py→Lean translator; hand model Totals.analyze tied to analyze_transactions by bit-for-bit differential runs; amounts are exact "
             "integers in the theorems (float rounding and Python 3.12's compensated sum() are outside the model; the implementation-side oracle uses dyadic amounts).",
             "DESIGN.md §5 C06"),
+    'C01': ("Lean 4 theorems over the rule-list algorithm for an arbitrary per-rule evaluation + differential correspondence of MerchantEngine.match / normalize_merchant / legacy loop",
+            "Proof: first_match_spec (result = find? of the first matching categorising rule), nonmatching_irrelevant (deleting non-matching rules changes nothing, whole result, both modes), "
+            "later_rules_irrelevant, normalize_spec / unknown_fallback, transforms_sequential / raw_saved_once, and the same four statements for the legacy CSV tuple loop — for rule lists of any length and "
+            "EVERY per-rule evaluation function (so for every expression language, variables, lets, regex engine).",
+            "Trusted: Lean kernel; the hand model Rules.matchEngine / Rules.legacy tied to the code by differential runs in which the per-rule evaluation comes from the implementation's own primitives "
+            "(the evaluator itself is modelled under C04/C08); CPython re/ast. Genuine defect D1 (legacy patterns shaped like expressions never matched) was repaired by a fix: commit.",
+            "DESIGN.md §5 C01"),
+    'C02': ("Lean 4 theorems over the rule-list algorithm (tags as union; tag-only neutrality) + differential correspondence + metamorphic oracle",
+            "Proof: tags_iff (a tag is reported iff some matching rule resolves to it; both modes), tags_nodup, tags_mode_indep, tags_perm, tagonly_neutral_first, tagonly_neutral_specific, "
+            "legacy_tags_spec/iff, legacy_tagonly_neutral — any rule list, any per-rule evaluation. tagonly_changes_merchant_unfixed is the kernel-checked counterexample for the code before the D2 repair.",
+            "Trusted: as C01. How a single tag text resolves ({expr} evaluation, strip, lower) is part of the per-rule evaluation, tied by the independent spec_resolve_tags oracle. "
+            "Overlap with C09 (tag-only rule that sets a subcategory) is not claimed either way (DESIGN.md §5 C02).",
+            "DESIGN.md §5 C02"),
+    'C09': ("Lean 4 theorems about Python's max-by-key over the lexicographic specificity key + regenerated key tables + differential correspondence",
+            "Proof: winner_spec, winner_maximal, ties_to_earliest (first maximal element), unmatched_iff, perm_invariant / subcategory_perm_invariant (order-independent when keys differ), "
+            "subcategory_maximal, lex_order, key_order_as_stated (over the regenerated Gen.Specificity), tags_unchanged — any rule list, any key function, any per-rule evaluation.",
+            "Trusted: as C01; the key tables and tuple order are regenerated from calculate_specificity each run; the text scanner computing the key (str.count, substring test, quoted-string regexes; ASCII lower-casing) "
+            "is a hand model compared with calculate_specificity on every generated rule.",
+            "DESIGN.md §5 C09"),
 }
 
 PENDING_REASON = "not claimed yet: model/theorems for this property are still being built (see DESIGN.md §7 build order); no check is registered until it is sound"
